@@ -1,15 +1,6 @@
-"""C12 - see DESIGN.md section 4."""
-import endpoint
-
-PROP = "C12"
-QUICK = ["qos_c311", "qos_c50_rm", "qos_offline", "qos_server"]
-THOROUGH = ["qos_c311", "qos_c311_auto", "qos_c50", "qos_c50_rm", "qos_offline", "qos_server"]
-
-
-def nontrivial(n):
-    return n['obs']['vacancy'] >= 0
+"""C12 - connection-level property decided on Endpoint.tla; see lib/endpoint_props.py and DESIGN.md section 4."""
+import endpoint_props
 
 
 def main(tier, replay=None):
-    return endpoint.run(PROP, tier, QUICK, THOROUGH, nontrivial, replay=replay,
-                        extra_rule="a QoS>0 PUBLISH is sent or acknowledged under a Receive Maximum")
+    return endpoint_props.main("C12", tier, replay)
